@@ -32,7 +32,7 @@ COMPONENTS = {'PIT / MPS / SuperNet wrappers and all searchable layers, maskers,
               'training script, aborts, crash/restart': 'simulated'}
 SIM_TIME_UNIT = 'ops of the simulated training loop'
 
-BASE_WEIGHTS = {'train_step': 4, 'backward_only': 0.7, 'opt_step': 0.7, 'forward_only': 0.7, 'perturb_arch': 0.7, 'perturb_net': 0.7,
+BASE_WEIGHTS = {'ckpt': 0.8, 'train_step': 4, 'backward_only': 0.7, 'opt_step': 0.7, 'forward_only': 0.7, 'perturb_arch': 0.7, 'perturb_net': 0.7,
                 'set_mode': 1.2, 'train_group': 4, 'set_flag': 3, 'softmax_opts': 3.5, 'read_cost': 0.3}
 
 
@@ -311,6 +311,7 @@ def execute(case):
                                        opts['disable_sampling'])
         return (method, exp['net'], exp['nas'], exp['alpha'], exp['beta'], exp['gamma'], o, rep.model.training)
 
+    saved_temperature = [None]
     check_frozen_set('construction')
     check_static('construction', 'after construction')
     cover['abstract_states'].add(repr(abstract_state()))
@@ -356,6 +357,10 @@ def execute(case):
                 exp['gamma'] = op['value']
             elif fl == 'train_selection':
                 exp['nas'] = op['value']
+        elif k == 'save_ckpt' and opts is not None:
+            saved_temperature[0] = opts['temperature']
+        elif k == 'load_ckpt' and opts is not None and method == 'mps' and saved_temperature[0] is not None:
+            opts['temperature'] = saved_temperature[0]      # MPS keeps its temperature in a buffer: it comes back
         elif k == 'softmax_opts' and opts is not None:
             for kk, vv in op['kw'].items():
                 if kk == 'temperature':
